@@ -155,4 +155,55 @@ func fbb.(*Message).IsOnlyReceiver(m, addr) (r)
   props C10 C09
   trusted
   pure
+
+# ---------------------------------------------------------------------------
+# C18: StringToBody preserves the text
+#   gTok      the current line (scanner token)
+#   gWritten  payload bytes of the current line written so far
+#   gNeedCRLF a payload chunk was written and its CRLF is still missing
+# every chunk is the next (contiguous) piece of the token, at most 998 bytes, cut
+# at a character boundary, followed by exactly CRLF; at the end of a token all
+# of it has been written; a nil error is returned only after the scanner's own
+# error has been consulted; the translator is the one obtained in this call
+# (go-charset translators reuse their output buffer, so they must not be shared).
+# ---------------------------------------------------------------------------
+ghost var gTok []byte
+ghost var gWritten int
+ghost var gNeedCRLF bool
+ghost var gTokSeen bool
+ghost var gErrChecked bool
+ghost var gScanErr error
+ghost var gTranslator charset.Translator
+
+pred RuneStartByte(b) := b < 128 || b >= 192
+
+func fbb.StringToBody(str, encoding) (body, err)
+  props C18
+  call bufio.(*Scanner).Bytes set gTok := $r0
+  call bufio.(*Scanner).Bytes set gWritten := 0
+  call bufio.(*Scanner).Bytes set gTokSeen := true
+  call bufio.(*Scanner).Buffer requires any-line-length: $2 >= len(str) + 1
+  call bytes.(*Buffer).Write requires alternate: !gNeedCRLF
+  call bytes.(*Buffer).Write requires next-piece: $1.$ref == gTok.$ref && $1.$off == gTok.$off + gWritten && gWritten + len($1) <= len(gTok)
+  call bytes.(*Buffer).Write requires line-limit: len($1) <= 998
+  call bytes.(*Buffer).Write requires progress: len($1) > 0 || len(gTok) == gWritten
+  call bytes.(*Buffer).Write requires cut-on-boundary: gWritten + len($1) == len(gTok) || RuneStartByte(gTok[gWritten + len($1)]) || (gWritten + len($1) + 3 <= len(gTok) - 1 && !RuneStartByte(gTok[gWritten + len($1) + 1]) && !RuneStartByte(gTok[gWritten + len($1) + 2]) && !RuneStartByte(gTok[gWritten + len($1) + 3]))
+  call bytes.(*Buffer).Write set gWritten := gWritten + len($1)
+  call bytes.(*Buffer).Write set gNeedCRLF := true
+  call bytes.(*Buffer).WriteString requires crlf: gNeedCRLF && $1 == "\r\n"
+  call bytes.(*Buffer).WriteString set gNeedCRLF := false
+  call bufio.(*Scanner).Err set gErrChecked := true
+  call bufio.(*Scanner).Err set gScanErr := $r0
+  call charset.TranslatorTo set gTranslator := $r0
+  call charset.Translator.Translate requires own-translator: same($0, gTranslator)
+  call charset.Translator.Translate requires whole-output: gErrChecked && gScanErr == nil
+  ensures scanner-error-consulted: err == nil ==> gErrChecked && gScanErr == nil
+  loop 0 invariant tokens-complete: !gNeedCRLF && (gTokSeen ==> gWritten == len(gTok))
+  loop 1 invariant piece: !gNeedCRLF && line.$ref == gTok.$ref && line.$off == gTok.$off + gWritten && gWritten + len(line) == len(gTok)
+  loop 2 invariant backoff: 0 <= i && i <= 3 && n + i == min(len(line), 998) && (i > 0 ==> len(line) > 998)
+  loop 2 invariant nonstart: forall j :: 1 <= j && j <= i ==> !RuneStartByte(line[n + j])
+
+func fbb.min(a, b) (r)
+  props C18
+  ensures def: r == min(a, b)
 @*/
